@@ -19,7 +19,13 @@ def collect : List Arg → Res Cause (Option (List GoVal))
   | .fn none :: rest =>
     if rest.all (fun a => match a with | .fn none => true | _ => false) then .ok (some []) else .ok none
 
+/-- `slice` returns "" for an empty receiver *before* it calls its lazily converted `length`
+    argument, so an ill-typed length is then never converted (`if len(s) == 0 { return "" }`). -/
+def sliceEarly (name : String) (args : List Arg) : Bool :=
+  name == "slice" && (match args with | .val (.str []) :: _ => true | _ => false)
+
 def impl (name : String) : FilterImpl := fun args =>
+  if sliceEarly name args then ret (.str []) else
   (collect args).bind fun
     | none => .unmodelled "string filter: absent argument before a present one"
     | some vs =>
